@@ -26,14 +26,6 @@ typedef struct {
 static int vs_on = 0;               /* replay mode? */
 static sem_t vs_arrived;
 
-static void vsInit(vs_thread* th, int n)
-{
-	int i;
-	sem_init(&vs_arrived, 0, 0);
-	for (i = 0; i < n; ++i) sem_init(&th[i].go, 0, 0), th[i].at = Y_NONE;
-	vs_on = 1;
-}
-
 /* worker side: stop at a yield point until the controller says go */
 static void vsYield(vs_thread* t, int point)
 {
